@@ -89,7 +89,7 @@ PRELUDE = (
     "Hashable, Sized, MutableSequence, AbstractSet, TypeVar\n"
     "from typing_extensions import Unpack\nimport collections.abc as cabc\nfrom dataclasses import dataclass\n"
     "from enum import Enum, IntEnum, EnumType\nfrom abc import ABCMeta\n"
-    "from harness.universe import A, B, Cc, D, Color, IE, NT0, NT1, NT2\n"
+    "from harness.universe import A, B, Cc, D, Color, IE, Fl, NT0, NT1, NT2\n"
     "T0 = TypeVar('T0')\nT1 = TypeVar('T1')\nTB = TypeVar('TB', bound=int)\nTC = TypeVar('TC', int, str)\n"
 )
 CNAMES = {c: V.cname(c) for c in V.CLASSES}
